@@ -170,7 +170,7 @@ DatePool == IF GenLevel >= 2 THEN {0, 1, 3, 4, 5, 6, 7, 8, 9, 10, 11, 12, NoDate
 Init_Dates ==
   /\ cfg \in CfgsEmpty
   /\ dirs = BaseDirs /\ live = {[r |-> "R", d |-> "d", n |-> "a", o |-> 1]}
-  /\ tex = {"home", "t2:V1", "c:V1"}
+  /\ tex = {"home", "t2:V1", "c:V1", "c:R"}
   \* skel: one of the trash directories exists but holds nothing (the skeleton a put + purge leaves): it must stay as it is
   \* under --dry-run and after a negative answer
   /\ \E d1 \in DatePool, d2 \in (IF GenLevel >= 2 THEN DatePool ELSE {4, 7, NoDate}), d3 \in (IF GenLevel >= 2 THEN {1, 7, 10} ELSE {7}),
@@ -178,17 +178,20 @@ Init_Dates ==
        /\ items = {i \in {[t |-> "home", o |-> 5, r |-> "R", d |-> "d", n |-> "a", date |-> d1],
                             [t |-> "t2:V1", o |-> 6, r |-> "V1", d |-> "d", n |-> "b", date |-> d2],
                             [t |-> "home", o |-> 7, r |-> "R", d |-> "top", n |-> "a", date |-> d3],
-                            [t |-> "c:V1", o |-> 8, r |-> "V1", d |-> "top", n |-> "a", date |-> d1]} : i.t # skel}
+                            [t |-> "c:V1", o |-> 8, r |-> "V1", d |-> "top", n |-> "a", date |-> d1],
+                            [t |-> "c:R", o |-> 4, r |-> "R", d |-> "de", n |-> "b", date |-> d2]} : i.t # skel}
        /\ (skel # "none" => d2 = 7)
        /\ orph = IF wo THEN {x \in {[t |-> "home", o |-> 9], [t |-> "t2:V1", o |-> 10]} : x.t # skel} ELSE {}
   /\ strays \in {{}, {[t |-> "home", id |-> 1, r |-> "R", d |-> "d", n |-> "b", date |-> 4]}}
   /\ junk = {}
   /\ clock = 10 /\ purged = {} /\ out = [cmd |-> "init"]
 Next_EmptyDays ==
-  \E days \in {-1, 0, 1, 2, 3}, td \in {"none", "V1"} :
+  \E days \in {-1, 0, 1, 2, 3}, td \in {"none", "V1", "V1+R"} :
      Empty([days |-> days, dry |-> FALSE, consent |-> "auto", td |-> td]) /\ Emit
+\* trash-list restricted to one or several --trash-dir
+Next_ListTd == \E td \in {"none", "V1", "R", "V1+R"} : List(td) /\ Emit
 Next_EmptyConsent ==
-  \E days \in {-1, 0, 1, 2}, dry \in BOOLEAN, consent \in {"auto", "yes", "no"}, td \in {"none", "V1"} :
+  \E days \in {-1, 0, 1, 2}, dry \in BOOLEAN, consent \in {"auto", "yes", "no"}, td \in {"none", "V1", "V1+R"} :
      (dry \/ consent # "auto") /\ Empty([days |-> days, dry |-> dry, consent |-> consent, td |-> td]) /\ Emit
 
 -----------------------------------------------------------------------------
